@@ -20,6 +20,11 @@
 //!                                             with n fresh characters and a fresh attribute `uid`): every node is unique BY VALUE;
 //!                                             set / rem = attribute of an element; ins / del / fmt (fresh format value, key "b") on
 //!                                             an XmlText
+//!   {"a":"umulti","r":r,"o":origin,"ops":[{"op":..,"p":..,"i":..,"n":..,"k":..,"key":..}, ..]}
+//!                                             the listed `uop`-like operations inside ONE transaction of origin `o`; every
+//!                                             address is resolved against the state at that moment INSIDE the transaction
+//!                                             (roots outside the scope may be addressed); event `k:"loc"`, `call` =
+//!                                             {"a":"multi","o":..,"ops":[resolved steps | {"a":"none"}]}, one update slot
 //! Every update slot is used (an inapplicable `uop` pushes an empty update) so that slot numbers are static.
 //!
 //! Every event of the behaviour additionally carries (after_step):
@@ -400,9 +405,8 @@ fn xml_children<T: ReadTxn>(txn: &T, cur: &Out) -> Option<Vec<Out>> {
     }
 }
 
-/// resolves an abstract address against the current visible state of replica `ri`
-fn resolve(w: &World, ri: usize, path: &[String]) -> Option<(Vec<String>, Tgt)> {
-    let txn = w.reps[ri].doc.transact();
+/// resolves an abstract address against the current visible state (as seen by `txn`)
+fn resolve<T: ReadTxn>(txn: &T, path: &[String]) -> Option<(Vec<String>, Tgt)> {
     let mut cur: Out = match path.first()?.as_str() {
         "t" => Out::YText(txn.get_text("t")?),
         "a" => Out::YArray(txn.get_array("a")?),
@@ -412,7 +416,7 @@ fn resolve(w: &World, ri: usize, path: &[String]) -> Option<(Vec<String>, Tgt)> 
     };
     let mut real = vec![path[0].clone()];
     for seg in &path[1..] {
-        if let Some(kids) = xml_children(&txn, &cur) {
+        if let Some(kids) = xml_children(txn, &cur) {
             // XML: "#e<j>" / "#t<j>" = j-th element / text child, "#<j>" = j-th child (counted cyclically among those present)
             let j = seg.strip_prefix('#')?;
             let (want, j) = match j.chars().next()? {
@@ -436,7 +440,7 @@ fn resolve(w: &World, ri: usize, path: &[String]) -> Option<(Vec<String>, Tgt)> 
             let j: usize = j.parse().ok()?;
             let Out::YArray(a) = &cur else { return None };
             // "#j": the j-th nested container (counted cyclically among the containers present)
-            let cs: Vec<(usize, Out)> = a.iter(&txn).enumerate().filter(|(_, v)| matches!(v, Out::YArray(_) | Out::YMap(_) | Out::YText(_))).collect();
+            let cs: Vec<(usize, Out)> = a.iter(txn).enumerate().filter(|(_, v)| matches!(v, Out::YArray(_) | Out::YMap(_) | Out::YText(_))).collect();
             if cs.is_empty() {
                 return None;
             }
@@ -445,7 +449,7 @@ fn resolve(w: &World, ri: usize, path: &[String]) -> Option<(Vec<String>, Tgt)> 
             cur = v;
         } else {
             let Out::YMap(m) = &cur else { return None };
-            let v = m.get(&txn, seg)?;
+            let v = m.get(txn, seg)?;
             if !matches!(v, Out::YArray(_) | Out::YMap(_) | Out::YText(_)) {
                 return None;
             }
@@ -454,32 +458,33 @@ fn resolve(w: &World, ri: usize, path: &[String]) -> Option<(Vec<String>, Tgt)> 
         }
     }
     let t = match &cur {
-        Out::YText(t) => Tgt::Text(t.get_string(&txn).chars().count() as u32),
-        Out::YArray(a) => Tgt::Array(a.len(&txn)),
+        Out::YText(t) => Tgt::Text(t.get_string(txn).chars().count() as u32),
+        Out::YArray(a) => Tgt::Array(a.len(txn)),
         Out::YMap(m) => {
-            let mut ks: Vec<String> = m.keys(&txn).map(|k| k.to_string()).collect();
+            let mut ks: Vec<String> = m.keys(txn).map(|k| k.to_string()).collect();
             ks.sort();
             Tgt::Map(ks)
         }
-        Out::YXmlFragment(f) => Tgt::XFrag(f.len(&txn)),
+        Out::YXmlFragment(f) => Tgt::XFrag(f.len(txn)),
         Out::YXmlElement(e) => {
             let f: &XmlFragmentRef = e.as_ref();
-            let mut ks: Vec<String> = e.attributes(&txn).map(|(k, _)| k.to_string()).collect();
+            let mut ks: Vec<String> = e.attributes(txn).map(|(k, _)| k.to_string()).collect();
             ks.sort();
-            Tgt::XElem(f.len(&txn), ks)
+            Tgt::XElem(f.len(txn), ks)
         }
         Out::YXmlText(t) => {
             let tr: &TextRef = t.as_ref();
-            Tgt::XText(tr.get_string(&txn).chars().count() as u32)
+            Tgt::XText(tr.get_string(txn).chars().count() as u32)
         }
         _ => return None,
     };
     Some((real, t))
 }
 
-fn uop(w: &mut World, st: &Value) -> Value {
+/// an abstract step `uop` -> the executable step of World::local / World::apply_op (address resolved against the state seen
+/// by `txn`, indices clamped); None = not applicable.  `fv` = the fresh format value of a `fmt` step.
+fn resolve_step<T: ReadTxn>(txn: &T, st: &Value, fv: &str) -> Option<Value> {
     let r = st["r"].as_u64().unwrap_or(1);
-    let ri = w.rep(r);
     let op = st["op"].as_str().unwrap_or("").to_string();
     let path: Vec<String> = st["p"].as_array().map(|v| v.iter().filter_map(|x| x.as_str().map(|s| s.to_string())).collect()).unwrap_or_default();
     let i = st["i"].as_u64().unwrap_or(0) as u32;
@@ -487,7 +492,7 @@ fn uop(w: &mut World, st: &Value) -> Value {
     let key = st["key"].as_str().unwrap_or("").to_string();
     let k = st["k"].as_str().unwrap_or("u").to_string();
     let o = st["o"].as_str().unwrap_or("").to_string();
-    let resolved: Option<Value> = match resolve(w, ri, &path) {
+    match resolve(txn, &path) {
         None => None,
         Some((real, tgt)) => match (tgt, op.as_str()) {
             (Tgt::Text(len), "ins") => Some(json!({"a": "ins", "r": r, "p": real, "i": i.min(len), "n": n, "k": "u", "o": o})),
@@ -517,10 +522,20 @@ fn uop(w: &mut World, st: &Value) -> Value {
             }
             (Tgt::XText(len), "fmt") if len > 0 => {
                 let i2 = i.min(len - 1);
-                Some(json!({"a": "fmt", "r": r, "p": real, "i": i2, "n": n.min(len - i2), "key": if key.is_empty() { "b" } else { key.as_str() }, "v": format!("f{}", w.next_val), "o": o}))
+                Some(json!({"a": "fmt", "r": r, "p": real, "i": i2, "n": n.min(len - i2), "key": if key.is_empty() { "b" } else { key.as_str() }, "v": fv, "o": o}))
             }
             _ => None,
         },
+    }
+}
+
+fn uop(w: &mut World, st: &Value) -> Value {
+    let r = st["r"].as_u64().unwrap_or(1);
+    let ri = w.rep(r);
+    let fv = format!("f{}", w.next_val);
+    let resolved: Option<Value> = {
+        let txn = w.reps[ri].doc.transact();
+        resolve_step(&txn, st, &fv)
     };
     match resolved {
         Some(s) => {
@@ -535,6 +550,79 @@ fn uop(w: &mut World, st: &Value) -> Value {
             json!({"k": "unop", "r": r, "call": st})
         }
     }
+}
+
+/// `umulti`: several `uop`-like operations inside ONE transaction of origin `o`; every address is resolved against the
+/// state at that moment inside the transaction (an inapplicable operation is skipped: `{"a":"none"}`).  One update slot.
+fn umulti(w: &mut World, st: &Value) -> Value {
+    let r = st["r"].as_u64().unwrap_or(1);
+    let ri = w.rep(r);
+    let o = st["o"].as_str().unwrap_or("").to_string();
+    let asked: Vec<Value> = st["ops"].as_array().cloned().unwrap_or_default();
+    // fresh content per operation, prepared before the document is borrowed
+    let mut prep: Vec<(String, Vec<yrs::Any>, yrs::Any, String)> = Vec::new();
+    for op in &asked {
+        let n = op["n"].as_u64().unwrap_or(1).max(1) as usize;
+        let fv = format!("f{}", w.next_val);
+        let chars = w.fresh_chars(n);
+        let vals: Vec<yrs::Any> = (0..n).map(|_| w.fresh_val()).collect();
+        let inner = w.fresh_val();
+        prep.push((chars, vals, inner, fv));
+    }
+    let doc = w.reps[ri].doc.clone();
+    let mut resolved: Vec<Value> = Vec::new();
+    let res = catch_unwind(AssertUnwindSafe(|| -> Result<Vec<u8>, String> {
+        let mut txn = if o.is_empty() { doc.transact_mut() } else { doc.transact_mut_with(o.as_str()) };
+        for (op, p) in asked.iter().zip(prep.iter()) {
+            let mut op = op.clone();
+            op["r"] = json!(r);
+            op["o"] = json!(o);
+            match resolve_step(&txn, &op, &p.3) {
+                Some(s) => {
+                    w.apply_op(&mut txn, &s, &p.0, &p.1, &p.2)?;
+                    resolved.push(s);
+                }
+                None => resolved.push(json!({"a": "none"})),
+            }
+        }
+        // what the transaction created, encoded BEFORE commit: an element inserted and deleted inside one transaction of a
+        // collecting replica only ever travels as a collected range, its structure is known from here alone
+        use yrs::ReadTxn as _;
+        Ok(txn.encode_update_v1())
+    }));
+    let mut pre_units: HashMap<(u64, u32), Value> = HashMap::new();
+    let outcome = match res {
+        Ok(Ok(pre)) => {
+            if let Ok(wu) = crate::codec::decode_update_v1(&pre) {
+                let (us, _) = w.absorb(&wu);
+                for u in us {
+                    pre_units.insert(idof(&u["id"]), u);
+                }
+            }
+            "ok".to_string()
+        }
+        Ok(Err(e)) => format!("skip: {}", e),
+        Err(p) => format!("panic: {}", panic_msg(&p)),
+    };
+    let (v1, v2) = w.drain(ri);
+    let (mut upd, problems) = w.emitted(&v1, &v2);
+    if let Some(arr) = upd["ins"].as_array_mut() {
+        for u in arr.iter_mut() {
+            if u["kind"] == "gc" {
+                if let Some(p) = pre_units.get(&idof(&u["id"])) {
+                    *u = p.clone();
+                }
+            }
+        }
+    }
+    let m1 = v1.first().cloned().unwrap_or_else(|| vec![0, 0]);
+    let m2 = v2.first().cloned().unwrap_or_else(empty_v2);
+    w.log.push((r, m1, m2));
+    json!({
+        "k": "loc", "r": r, "call": {"a": "multi", "r": r, "o": o, "ops": resolved}, "asked": st, "cont": "", "outcome": outcome,
+        "upd": upd, "nev": [v1.len(), v2.len()], "wire": problems.join("; "),
+        "obs": w.observe(ri), "hasfol": w.followers, "fol": w.fol_obs(ri),
+    })
 }
 
 pub fn step(w: &mut World, st: &Value) -> Option<Value> {
@@ -558,6 +646,7 @@ pub fn step(w: &mut World, st: &Value) -> Option<Value> {
         "undo" => Some(pop(w, st, true)),
         "redo" => Some(pop(w, st, false)),
         "uop" => Some(uop(w, st)),
+        "umulti" => Some(umulti(w, st)),
         _ => None,
     }
 }
